@@ -935,6 +935,12 @@ class C15(ValProp):
                 out.append(show(['val', t, ['s'] + [g.val(et, 3) for _ in range(ln)]]))
         for ln in (list(range(0, 600, 37)) if tier == 'quick' else range(0, 1030, 3)):
             out.append(show(['val', ['bl', 1030], g.bits(ln)]))
+        # mutated values: after every op the view against a fresh value with the content it shows
+        for _ in range(self.n(tier) // 4):
+            t, v = self.tv(g, tier, mutable=True)
+            v = boundary_value(g, t, v)
+            ops, _ = g.ops(t, v, g.rng.choice([4, 10, 25]))
+            out.append(show(['hist', t, v] + ops))
         # pairs
         for _ in range(self.n(tier) // 3):
             t, v = self.tv(g, tier)
@@ -980,6 +986,16 @@ class C15(ValProp):
                 if a != b:
                     out.append(F('corr', 'stack iterator %s %s on a raw tree' % (c[0], show(c[1:])), a, b))
             return out
+        if case[0] == 'hist':
+            bump(stats, 'kinds', 'hist:' + kind(case[1]))
+            for i, op in enumerate(case[3:]):
+                bump(stats, 'ops', op[0])
+                a = py.get('%d.pfresh' % i)
+                if a is None or set(a) - {'1'}:
+                    out.append(F('prop', 'after op %d %s the view disagrees with a fresh value of the content it shows '
+                                 '(==, !=, root, hash, to_obj, bytes, iter, roiter, slice, interleaved iteration)' % (i, show(op)), a, 'all 1'))
+                    break
+            return out
         if case[0] == 'eq2':
             bump(stats, 'kinds', 'eq2:' + kind(case[1]))
             same = show(case[2]) == show(case[3])
@@ -991,7 +1007,7 @@ class C15(ValProp):
         if py.get('p.ctor') != 'ok':
             return [F('prop', 'ctor', py.get('p.ctor'), 'valid value must be constructible')]
         v = show(case[2])
-        for route in ('index', 'iter', 'roiter', 'slice'):
+        for route in ('index', 'iter', 'roiter', 'slice', 'zip'):
             if py.get('p.read.' + route) != v:
                 out.append(F('prop', 'read via ' + route, py.get('p.read.' + route), v))
         t = case[1]
